@@ -152,6 +152,15 @@ def build_low(te, returns, clobber=True):
     for off in (0x00, 0x04, 0x08, 0x0C, 0x10, 0x14):
         v = HYP_BASE + off
         page[v:v + 4] = emit([T.SELF, T.NOP], True)
+    # Hyp Trap vector (HVBAR+0x14): SVC executed in Non-secure User mode with HCR.TGE=1 arrives here; ELR_hyp is the instruction after the SVC
+    haddr = HYP_BASE + 0x40 + HANDLER_SLOT * 2
+    words = handler_thumb('svc', 'eret', clobber, mode=0x1a)
+    code = emit(words, True)
+    assert haddr + len(code) <= len(page)
+    page[haddr:haddr + len(code)] = code
+    info['hyp_svc'] = (haddr, len(code), len(words))
+    v = HYP_BASE + 0x14
+    page[v:v + 4] = emit([T.b(haddr - v), T.NOP], True)
     # unused vectors: branch to self (observable as a stuck run)
     for kind in ('reset', 'pabt', 'hyp'):
         v = VEC[kind]
